@@ -124,6 +124,9 @@ pub struct Session {
     /// repository path (for db files)
     #[serde(default)]
     pub repo: String,
+    /// run the *alternative build* of the tool (same code, other embedded data) instead of the main one
+    #[serde(default, skip_serializing_if = "std::ops::Not::not")]
+    pub alt: bool,
 }
 
 fn one() -> usize {
